@@ -58,7 +58,8 @@ func runC17(c *Ctx) error {
 	rng := c.Rng
 	var jobs []*SynJob
 	half := (nG + 1) / 2
-	base := genSynJobs(rng, half, "b", synFilter{class: func(k model.LRClass) bool { return k == model.ClassClean }, nonEmpty: true, actionMode: 0, simpleLex: true})
+	base := genSynJobs(rng, half, "b", synFilter{class: func(k model.LRClass) bool { return k == model.ClassClean }, nonEmpty: true, actionMode: 0, simpleLex: true,
+		family: func(i int) string { return []string{"brackets", "expr", "", "list", ""}[i%5] }})
 	errs := genSynJobs(rng, nG-half, "e", synFilter{class: func(k model.LRClass) bool { return k != model.ClassAcceptReduce }, withErrors: true, nonEmpty: true, actionMode: 1, simpleLex: true})
 	for _, j := range append(base, errs...) {
 		// plain and -zip variant of the same grammar
@@ -73,7 +74,10 @@ func runC17(c *Ctx) error {
 	for _, j := range jobs {
 		pool := model.InputPool(inRng, j.CFG, nItems, 3)
 		// deep inputs (stack beyond its initial capacity), several of them so that goroutines overlap on them
-		pool = append(pool, model.LongSentences(inRng, j.CFG, 12, 110)...)
+		pool = append(pool, model.LongSentences(inRng, j.CFG, 6, 110)...)
+		deep := model.DeepSentences(inRng, j.LR, 10, 110)
+		pool = append(pool, deep...)
+		c.Add("inputs_with_parse_stack_deeper_than_100", len(deep))
 		var fs []*DFeed
 		for _, in := range pool {
 			f := &DFeed{Toks: j.Names(in), Fail: -1, Render: true}
